@@ -1056,8 +1056,12 @@ where
                     hs_noncmplt = Some(c);
                 }
             }
+            // A production which references a not yet completed rule can still grow, so (unlike
+            // the minimum cost case) its current cost tells us nothing about its final cost: we can
+            // only complete a rule when all of its productions are complete or when it references
+            // an infinite rule.
             if let Some(high_cmplt) = hs_cmplt
-                && (hs_noncmplt.is_none() || hs_cmplt > hs_noncmplt)
+                && (hs_noncmplt.is_none() || high_cmplt == u16::MAX)
             {
                 debug_assert!(high_cmplt >= costs[i]);
                 costs[i] = high_cmplt;
